@@ -83,6 +83,7 @@ func inList(l []primitive.ConsistencyLevel, c primitive.ConsistencyLevel) bool {
 }
 
 func genForward(ctx *Ctx, prop string) {
+	frontPhase(ctx)
 	r := ctx.Rng
 	prefix, port := px.Alloc()
 	be := fb.New(prefix, port)
